@@ -41,6 +41,26 @@ func (r *Run) Class() string {
 
 // CheckDataflow evaluates C01, C02 and C03 on a run without injected faults.
 func (r *Run) CheckDataflow() *Eval {
+	nBefore := len(r.Violations)
+	ev := r.checkDataflow()
+	if ev.NNestedEmpty > 0 {
+		// Known finding (KF-C01-1, DESIGN.md section 14, D6): a map call inside a
+		// map-called pipeline whose own collection is empty or null for one of
+		// the outer elements - martian then also loses or pads the results of the
+		// other outer elements.  Violations in such runs are filed under that
+		// finding; every other run is judged as usual.
+		for i := nBefore; i < len(r.Violations); i++ {
+			v := &r.Violations[i]
+			if v.Property == "C01" || v.Property == "C03" {
+				v.Msg = "[" + v.Oracle + "] " + v.Msg
+				v.Oracle = "nested-map-call-over-empty-collection"
+			}
+		}
+	}
+	return ev
+}
+
+func (r *Run) checkDataflow() *Eval {
 	ev, top := Evaluate(r.Prog, r.Jobs)
 	if ev.Rejected != "" {
 		return ev
